@@ -35,6 +35,7 @@ var props = map[string]*propInfo{
 	"C02": {},
 	"C03": {},
 	"C04": {},
+	"C05": {},
 	"C07": {},
 }
 
